@@ -33,7 +33,9 @@ RULE = ('case = (object configs (reentrant?, constructor timeout), fault script,
         '(acquire/acquire_ctx/with x blocking/non-blocking/timed x timeout -1/0/2*poll) and the object configuration '
         'rotate over the shapes; every single OSError injection at every syscall index of the shorter shapes, sampled '
         'double injections; random longer sequences.  non-trivial (decided in Coq): >= 3 observed calls with a '
-        'successful acquire and either a refusal or a second success.')
+        'successful acquire and either a refusal or a second success.  Context managers entered through acquire_ctx() / '
+        'with are left alternately normally and through an exception (__exit__(ValueError, ...)): both must do the same '
+        'release().')
 EXHAUSTIVE_NOTE = ('all canonical contract-respecting shapes of length <= 4 (quick) / <= 5 (thorough) over 12 letters; '
                    'single-fault injection at every syscall index for shapes of length <= 3 (quick: every second shape) / <= 4')
 ASSUMPTIONS = ['kernel flock(2): exclusive per open file description, released by LOCK_UN / close (checked on every '
